@@ -20,7 +20,7 @@ RULE = ("seeded random circuits (all component kinds, loss, barriers, unitary bl
         "parameters) followed by random sequences of 1-6 rewrites, each optionally followed by further construction; "
         "distinct = (rewrite sequence, component kinds between two swaps, non-adjacent/reversed BS present, heralded "
         "group present); non-trivial = a rewrite actually had something to do (group / non-adjacent BS / two swaps)")
-MANDATORY = ["swap_blocked_by:PhaseShifter", "swap_blocked_by:BeamSplitter", "swap_blocked_by:Loss",
+MANDATORY = ["ancilla_lands_on_group_boundary", "swap_blocked_by:PhaseShifter", "swap_blocked_by:BeamSplitter", "swap_blocked_by:Loss",
              "swap_blocked_by:Group", "swap_blocked_by:UnitaryMatrix", "swaps_mergeable",
              "reversed_nonadjacent_bs_in_group", "heralded_group_unpacked", "frozen_copy", "independence_checked",
              "original_gets_heralded_subcircuit_after_copy", "copy_unpacked_then_edited", "rewrite_applied_twice"]
@@ -161,6 +161,44 @@ def buckets_before(ctx, c, rewrite):
     return True
 
 
+def sandwich(ctx, lw, rng, b):
+    """Directed family: swap - grouped sub-circuit - swap, where the swaps touch a boundary mode of the group and one
+    mode outside it, and afterwards a heralded child is added so that its ancilla lands on the group's first mode, inside
+    it, on its last mode or just behind it. What a group blocks for swap compression is decided by its recorded mode
+    range, which every insertion of an empty mode has to shift correctly."""
+    n = int(rng.integers(5, 8))
+    g = int(rng.integers(2, 4))
+    a = int(rng.integers(1, n - g))              # one free mode below and above the group
+    last = a + g - 1
+    c = lw.Circuit(n)
+    log = [["circuit", n]]
+    edge, outside = (last, last + 1) if rng.random() < 0.6 else (a, a - 1)
+    sw = {edge: outside, outside: edge}
+    c.mode_swaps(dict(sw)); log.append(["swaps", sw])
+    sub_log: list = []
+    sub = b.leaf(g, int(rng.integers(1, 4)), sub_log, heralds=0)
+    c.add(sub, a, True); log.append(["add", sub_log, a, True])
+    if rng.random() < 0.7:
+        c.mode_swaps(dict(sw)); log.append(["swaps", sw])
+    else:
+        other = outside + (1 if outside > edge else -1)
+        sw2 = {edge: outside, outside: edge} if not 0 <= other < n else {outside: other, other: outside}
+        c.mode_swaps(dict(sw2)); log.append(["swaps", sw2])
+    # a heralded child (1 visible mode, 1 herald) whose ancilla is inserted at parent index `target`
+    target = int(rng.choice([a, last, last, last + 1, int(rng.integers(a, last + 1))]))
+    h = int(rng.integers(0, 2))                  # the herald is the child's mode h, its visible mode the other one
+    m = target - h
+    if 0 <= m < n:
+        child = lw.Circuit(2)
+        child.bs(0, 1, float(rng.uniform(0.2, 0.8)))
+        child.herald(int(rng.integers(0, 2)), h)
+        c.add(child, m); log.append(["add", [["circuit", 2], ["bs", 0, 1], ["herald", "n", h, None]], m, True])
+        ctx.bucket("ancilla_lands_on_group_boundary")
+    if rng.random() < 0.5:
+        c.mode_swaps({0: 1, 1: 0}); log.append(["swaps", {0: 1, 1: 0}])
+    return c, log
+
+
 def run(ctx):
     lw = setup(ctx, warm=False)
     install_rewrite_monitors(circmon.Circuit)
@@ -180,6 +218,8 @@ def run(ctx):
                 if b.numbered(c) >= 3:
                     c.add(sub, int(rng.integers(0, b.numbered(c) - 2)), True)
                     log.append(["add", [["circuit", 3], ["bs", 2, 0]], "m", True])
+            if rng.random() < 0.25:
+                c, log = sandwich(ctx, lw, rng, b)
         except Exception as e:  # noqa: BLE001
             ctx.count("construction_raised:" + type(e).__name__)
             circmon.drain()
